@@ -669,6 +669,34 @@ func c08Run(f []string) []string {
 		dnsforward.VerifC08Process(c08.srv, name, qt, netip.AddrPortFrom(addr, 53535), cid, c08.refuseAny)
 
 		return append(c08Mem(), c08Unit()...)
+	case "C08.querylocked":
+		// The same as a query, but pushed through while the clients container's
+		// lock is held (as GET /control/clients and every configuration write hold
+		// it): the statistics' client callback must wait for the lock, not guess.
+		name, qt := vutil.Unhex(f[1]), uint16(vutil.Atoi(f[2]))
+		addr, ok := netip.AddrFromSlice([]byte(vutil.Unhex(f[3])))
+		if !ok {
+			panic("bad client address")
+		}
+		cid := vutil.Unhex(f[4])
+		c08.peers[addr.Unmap()] = true
+		if len(f) > 5 && addr.Is6() {
+			addr = addr.WithZone(vutil.Unhex(f[5]))
+		}
+		done := make(chan struct{})
+		globalContext.clients.lock.Lock()
+		go func() {
+			defer close(done)
+			dnsforward.VerifC08Process(c08.srv, name, qt, netip.AddrPortFrom(addr, 53535), cid, c08.refuseAny)
+		}()
+		select {
+		case <-done:
+		case <-time.After(2 * time.Millisecond):
+		}
+		globalContext.clients.lock.Unlock()
+		<-done
+
+		return append(c08Mem(), c08Unit()...)
 	case "C08.flush":
 		_ = c08.qlog.Shutdown(context.Background())
 
@@ -1204,7 +1232,11 @@ func c08Gen(r *rand.Rand, emit vutil.Emit) {
 					addr = vutil.Pick(r, c08LinkLocal)
 					zone = vutil.Pick(r, []string{"eth0", "wlan0", "eth0", "wlan0", ""})
 				}
-				emit("C08.query", vutil.Hex(c08GenQName(r)), vutil.Itoa(int(qt)), vutil.Hex(addr), vutil.Hex(cid), vutil.Hex(zone))
+				op := "C08.query"
+				if r.IntN(120) == 0 {
+					op = "C08.querylocked"
+				}
+				emit(op, vutil.Hex(c08GenQName(r)), vutil.Itoa(int(qt)), vutil.Hex(addr), vutil.Hex(cid), vutil.Hex(zone))
 			case x < 62:
 				// a runtime record (rDNS name and/or WHOIS) for an address of the pool
 				a := vutil.Pick(r, c08V4)
